@@ -4,6 +4,7 @@ import (
 	"bytes"
 	"encoding/binary"
 	"fmt"
+	"github.com/influxdata/influxdb/pkg/verifhook"
 	"io"
 	"os"
 	"path/filepath"
@@ -435,6 +436,7 @@ func (l *queue) trimHead() error {
 		if err := os.Remove(l.head.path); err != nil {
 			return err
 		}
+		verifhook.At("hh.trim", l.head.path, 0)
 		l.head = l.segments[0]
 	}
 	return nil
@@ -598,6 +600,7 @@ func (l *segment) flush() error {
 		return err
 	}
 
+	verifhook.At("hh.flush.begin", l.path, l.size)
 	buf := bytes.NewBuffer(b)
 	if err := binary.Write(buf, binary.BigEndian, uint64(l.pos)); err != nil {
 		return err
@@ -606,6 +609,7 @@ func (l *segment) flush() error {
 	if err := l.writeBytes(buf.Bytes()); err != nil {
 		return err
 	}
+	verifhook.At("hh.flush.written", l.path, l.size+int64(len(b)))
 
 	if err := l.file.Sync(); err != nil {
 		return err
@@ -616,6 +620,7 @@ func (l *segment) flush() error {
 	}
 
 	l.size += int64(len(b))
+	verifhook.At("hh.flush.synced", l.path, l.size)
 	l.buf = nil
 
 	return nil
@@ -674,6 +679,7 @@ func (l *segment) truncate() error {
 	if err := l.file.Truncate(size); err != nil {
 		return err
 	}
+	verifhook.At("hh.truncate", l.path, size)
 
 	if err := l.file.Sync(); err != nil {
 		return err
@@ -708,11 +714,13 @@ func (l *segment) advance() error {
 	if err := l.writeUint64(uint64(pos)); err != nil {
 		return err
 	}
+	verifhook.At("hh.advance.written", l.path, pos)
 
 	if err := l.file.Sync(); err != nil {
 		return err
 	}
 	l.pos = pos
+	verifhook.At("hh.advance.synced", l.path, pos)
 
 	if err := l.seekToCurrent(); err != nil {
 		return err
